@@ -76,6 +76,16 @@ CHECKS = {
         "note": "Trusted: as C02. Strict acceptance of the layouts is observed from the code, not predicted by a directive-level specification; the lax/strict and ModulePath clauses are relations between functions of the code, checked on spec-generated layouts.",
         "technique": TLA + "spec-generated inputs (accepted and rejected) with predicted positions replayed into the parsers; recorded mutated inputs trace-validated",
     },
+    "C06": {
+        "text": "Bounded-exhaustive with an independent oracle: ModulePath.tla states the documented rules declaratively at character level; TLC checks the inclusions module <= import <= file, the split laws and Check = conjunction on every concatenation of up to 3/4 fragments of a rule-directed vocabulary, sweeps every printable ASCII character at five positions, enumerates glob lists, and every case is replayed into the module package; mutated real-world paths and random globs are re-evaluated under TLC. One defect found and repaired (gopkg.in/x.v-unstable).",
+        "note": "Trusted: the transcription of the documentation (with the pinned-test reading for interior double dots), path.Match as a recursive definition, unicode.IsLetter for the generated characters only.",
+        "technique": TLA + "declarative path rules; spec-generated strings replayed into the code, recorded calls trace-validated",
+    },
+    "C11": {
+        "text": "Bounded-exhaustive: Escape.tla defines Esc/Unesc and validity; TLC checks no-upper-case, Unesc(Esc(s)) = s and 'unescaping succeeds only on escapes of valid inputs' on every string over a 12-letter alphabet up to length 4/6 (bare and as a path below x.y/), and each string is replayed into the four escape functions as path, version, escaped path and escaped version; the harness additionally hashes lower-cased escapes of all valid inputs for collisions; recorded calls are re-evaluated under TLC.",
+        "note": "Injectivity ignoring case is derived (outputs have no upper-case letters and Unesc inverts Esc) and cross-checked by hashing on the Go side. Bounds: alphabet and length.",
+        "technique": TLA + "escape encoding specification; spec-generated strings replayed into the code, recorded calls trace-validated",
+    },
 }
 
 NOT_APPLICABLE = {}
